@@ -491,6 +491,9 @@ impl C05 {
                 match res {
                     Caught::Ok(r) => {
                         out.count("saved_terms", r.done.len() as u64);
+                        if matches!(sc.cfg.hist, Hist::UntilDepth(_)) {
+                            out.probe("saved.two_stage_history");
+                        }
                         let mut sum = vec![Val::zero(); expected.len()];
                         let mut ok = true;
                         for (j, t) in r.done.iter().enumerate() {
@@ -842,7 +845,9 @@ impl Property for C05 {
                 Sc {
                     g,
                     family: fam.into(),
-                    cfg: Cfg { driver, simp: d.choose("s.simp", 3) as u8, split: false, hist: Hist::Decompose },
+                    // the two-stage history (stop at a depth, then resume) in half of the runs: terms
+                    // that become Clifford during the first stage must still be on the list at the end
+                    cfg: Cfg { driver, simp: d.choose("s.simp", 3) as u8, split: false, hist: if d.coin("s.hist", 1, 2) { Hist::UntilDepth(1 + d.choose("s.depth", 4) as i64) } else { Hist::Decompose } },
                     hash_backend,
                     kind: Kind::Saved,
                 }
